@@ -273,6 +273,31 @@ def z3_decide(mono, w_lo, w_hi, lo, hi, timeout):
     """exists w in the band with P(cos w) outside [lo, hi]?  Portfolio over the installed z3 versions: the first definite
     verdict wins, the other process is killed.  An '(error' in the output is never read as a verdict."""
     text = _smt2(mono, w_lo, w_hi, lo, hi)
+    import hashlib
+    key = hashlib.sha256(text.encode()).hexdigest()
+    with _qlock:
+        ev = _qcache.get(key)
+        if ev is None:
+            ev = _qcache[key] = {'done': threading.Event(), 'res': None, 'owner': True}
+            mine = True
+        else:
+            mine = False
+    if not mine:        # the same query (same taps, band and bound) is being decided for another configuration: share the verdict
+        ev['done'].wait(timeout + 30)
+        return dict(ev['res'] or {'status': 'unknown', 'detail': 'shared query gave no verdict'}, shared=True)
+    try:
+        res = _z3_run(text, timeout)
+    finally:
+        ev['res'] = locals().get('res')
+        ev['done'].set()
+    return res
+
+
+_qlock = threading.Lock()
+_qcache = {}
+
+
+def _z3_run(text, timeout):
     procs = []
     t0 = time.time()
     for z in Z3S:
@@ -427,7 +452,7 @@ def e2e_check(workdir, cfg, parts, tier):
     kept, tail, W = truncate(g, delta0 / 4)
     lin = d['q']['phase'] == 50
     ck.detail['proto'] = {'L': L, 'M': M, 'bits': bits, 'taps_raw': len(g), 'taps_kept': len(kept), 'tail_l1': float(tail), 'engine': d['engine']}
-    timeout = 200 if tier == 'quick' else 900
+    timeout = 600 if tier == 'quick' else 1800
     mx = max(L, M)
     wp = math.pi * d['q']['passband_end'] / mx
     ws = math.pi * d['q']['stopband_begin'] / mx
@@ -477,7 +502,7 @@ def stage_check(workdir, cfg, parts, tier, kinds=('dft',)):
         return {'status': 'broken', 'detail': 'configuration rejected by soxr_create: %s' % d['error']}
     bits = bits_of(d)
     recs = d['records']
-    timeout = 200 if tier == 'quick' else 900
+    timeout = 600 if tier == 'quick' else 1800
     limit = MAX_TAPS_QUICK if tier == 'quick' else 1500
     n_checked = 0
     for i, r in enumerate(recs):
